@@ -10,6 +10,7 @@ import (
 	"encoding/binary"
 	"errors"
 	"fmt"
+	"runtime"
 
 	"github.com/wollac/iota-crypto-demo/pkg/merkle"
 	_ "golang.org/x/crypto/blake2b"
@@ -145,7 +146,7 @@ func runC15(c *core.Ctx) {
 	if c.Thorough() {
 		maxN = 20000
 	}
-	c.Rule = fmt.Sprintf("every leaf count 0..%d (SHA-256, distinct leaves), 0..%d for SHA-512/BLAKE2b-256/SHA-1 and other leaf contents, counts 2^k-1,2^k,2^k+1 up to 2^17; RFC 9162 audit paths for every leaf of every n<=300; every set of <=2 failing leaves for n<=33; non-trivial = distinct (hash, n, contents) trees with n>=2 compared + audit paths verified", maxN/4)
+	c.Rule = fmt.Sprintf("all call histories of length <=3 over 19 calls (7 leaf counts, 12 failing-leaf placements) on one Hasher per hash function; every leaf count 0..%d (SHA-256, distinct leaves), 0..%d for SHA-512/BLAKE2b-256/SHA-1 and other leaf contents, counts 2^k-1,2^k,2^k+1 up to 2^17; RFC 9162 audit paths for every leaf of every n<=300; every set of <=2 failing leaves for n<=33; non-trivial = distinct (hash, n, contents) trees with n>=2 compared + audit paths verified", maxN/4)
 	hashes := []crypto.Hash{crypto.SHA256, crypto.SHA512, crypto.BLAKE2b_256, crypto.SHA1}
 	var nontriv int64
 	type job struct {
@@ -288,6 +289,77 @@ func runC15(c *core.Ctx) {
 		}
 	}
 	c.Sample(map[string]interface{}{"n": 33, "failing": []int{7, 31}, "expect": "error of leaf 7, nil hash"})
+
+	// ---- histories on one Hasher: the result depends only on the leaves of the call, not on earlier calls ----
+	// all sequences of length <= 3 over {ok(n) for n in 0,1,2,3,5,8,33; fail(n, k) at first / middle / last leaf}, on one OS thread
+	type hop struct {
+		name string
+		n    int
+		fail int // -1: none
+	}
+	var hops []hop
+	for _, n := range []int{0, 1, 2, 3, 5, 8, 33} {
+		hops = append(hops, hop{fmt.Sprintf("ok(n=%d)", n), n, -1})
+	}
+	for _, n := range []int{1, 2, 5, 33} {
+		for _, k := range []int{0, n / 2, n - 1} {
+			hops = append(hops, hop{fmt.Sprintf("fail(n=%d,leaf=%d)", n, k), n, k})
+		}
+	}
+	for _, hh := range []crypto.Hash{crypto.SHA256, crypto.BLAKE2b_256} {
+		done := make(chan struct{})
+		var seqs int64
+		go func() {
+			defer close(done)
+			runtime.LockOSThread()
+			defer runtime.UnlockOSThread()
+			var rec func(hist []int)
+			rec = func(hist []int) {
+				if len(hist) > 0 {
+					seqs++
+					hsr := merkle.NewHasher(hh)
+					var got []byte
+					var err error
+					var last hop
+					for _, o := range hist {
+						last = hops[o]
+						raw := c15Leaves(last.n, 3)
+						data := make([]encoding.BinaryMarshaler, last.n)
+						for i := range data {
+							l := &c15leaf{b: raw[i]}
+							if i == last.fail {
+								l.err = errors.New("scripted failure")
+							}
+							data[i] = l
+						}
+						got, err = hsr.Hash(data)
+					}
+					names := []string{}
+					for _, o := range hist {
+						names = append(names, hops[o].name)
+					}
+					if last.fail >= 0 {
+						if err == nil || got != nil {
+							c.Violate("C15/history/error-lost", fmt.Sprintf("%v after %v: hash %x err %v", hh, names, got, err), names, "", nil)
+						}
+					} else if want := refMerkleRoot(hh, c15Leaves(last.n, 3)); err != nil || !bytes.Equal(got, want) {
+						c.Violate("C15/history/root-depends-on-earlier-calls", fmt.Sprintf("%v: after %v on the same Hasher, %s returns %x (err %v); the tree hash of these leaves is %x", hh, names[:len(names)-1], last.name, got, err, want), names, "", nil)
+					}
+				}
+				if len(hist) == 3 {
+					return
+				}
+				for o := range hops {
+					rec(append(append([]int{}, hist...), o))
+				}
+			}
+			rec(nil)
+		}()
+		<-done
+		c.Eval(seqs)
+		nontriv += seqs
+		c.Set("hasher_histories_"+hh.String(), seqs)
+	}
 	c.NonTrivial(nontriv)
 	c.SetExhaustive(true)
 	c.Assume = []string{"Go crypto hash implementations", "RFC 9162 2.1.3.2 verifier transcribed by hand"}
